@@ -63,7 +63,18 @@ MATCHERS = {
     'mZero': ("return 0", lambda v: 0.0),
     'mNothing': ("return", lambda v: None),
     'mObjIfArr': ("return if(systemType(vv) == 'array', objectNew(), null)", lambda v: {} if isinstance(v, list) else None),
+    # a match function with an effect on the very array that may be searched: the search sees the array as it is when each element is examined
+    'mPoke': ("if systemType(a0) == 'array' && arrayLength(a0) > 0:\n        arraySet(a0, 0, 'poked')\n    endif\n    return vv == 'poked'", lambda v: _poke(v)),
 }
+_HEAP = [None]
+LIBRARY_MATCHERS = ['arrayPush', 'arrayLength', 'objectKeys', 'stringLength', 'arrayPop', 'arrayCopy', 'stringNew']
+
+
+def _poke(v):
+    a0 = _HEAP[0].model.get('a0') if _HEAP[0] is not None else None
+    if isinstance(a0, list) and a0:
+        a0[0] = 'poked'
+    return ref_compare(v, 'poked') == 0
 MATCHER_PRELUDE = '\n'.join('function %s(vv):\n    %s\nendfunction' % (n, body) for n, (body, _) in sorted(MATCHERS.items()))
 
 
@@ -74,6 +85,13 @@ class _Matcher:
         self.name = name
 
     def __call__(self, args, options=None):
+        if self.name in LIBRARY_MATCHERS:
+            # a library function as the match function: called with the element as its only argument (a fresh argument list per element); what
+            # the search makes of a match function that fails is not documented
+            try:
+                return rl.MODELS[self.name]([args[0] if args else None])
+            except rl.Fail as e:
+                raise rl.UnspecifiedResult('library match function failed') from e
         return MATCHERS[self.name][1](args[0] if args else None)
 
 
@@ -301,9 +319,20 @@ class Machine(RuleBasedStateMachine):
             texts.append(a[0])
             values.append(a[1])
         matcher = None
-        if name in ('arrayIndexOf', 'arrayLastIndexOf') and len(texts) >= 2 and rnd.random() < 0.3:
-            matcher = rnd.choice(sorted(MATCHERS))
+        if name in ('arrayIndexOf', 'arrayLastIndexOf') and len(texts) >= 2 and rnd.random() < 0.4:
+            matcher = rnd.choice(sorted(MATCHERS) + ['mPoke', 'mPoke'] + LIBRARY_MATCHERS[:3] + [rnd.choice(LIBRARY_MATCHERS)])
             texts[1], values[1] = matcher, _Matcher(matcher)
+            _HEAP[0] = self.h
+            if matcher == 'mPoke' and isinstance(self.h.model.get('a0'), list) and rnd.random() < 0.7:
+                texts[0], values[0] = 'a0', self.h.model['a0']           # the array that the match function changes is the one being searched
+            if matcher in LIBRARY_MATCHERS and rnd.random() < 0.7:
+                # an array of arrays (the first ones empty): array functions as match functions work on the elements
+                inner = [[] for _ in range(rnd.randint(0, 2))] + [rnd.choice([[], [], [7.0], [1.0, 2.0]]) for _ in range(rnd.randint(1, 3))]
+                texts[0] = 'arrayNew(%s)' % ', '.join('arrayNew(%s)' % ', '.join(lit(x) for x in e) for e in inner)
+                values[0] = [list(e) for e in inner]
+            if len(values) > 2 and is_number(values[2]) and isinstance(values[0], list) and not 0 <= values[2] < len(values[0]):
+                del texts[2:]
+                del values[2:]
         # keep repeat counts small
         if name == 'stringRepeat' and len(values) > 1 and is_number(values[1]) and values[1] > 6:
             values[1], texts[1] = 3.0, '3'
@@ -324,6 +353,8 @@ class Machine(RuleBasedStateMachine):
             expected = rl.MODELS[name](list(values)) if name not in rl.NEEDS_CALL else \
                 rl.MODELS[name](list(values), (lambda f, a: f(a)) if matcher else None)
             outcome = 'ok'
+        except rl.UnspecifiedResult:
+            outcome, expected = 'ok', rl.UNSPEC
         except rl.FailDefault as f:
             outcome, expected = 'fail-default', f.value
         except rl.Fail as f:
